@@ -26,7 +26,7 @@ func init() {
 			"model, full structural audit of every live tree after every operation, blankness/fresh-ID/no-double-owner check on every acquisition, " +
 			"released pointers never reachable. (2) every record tree handed out by the seven readers audited; previous record's nodes must not be " +
 			"reachable with their old IDs after the next Read. (3) G goroutines running private histories against the shared pool and ID counter under " +
-			"the race detector; all IDs pairwise distinct. distinct = digest of the operation history / input; non-trivial = history in which the pool " +
+			"the race detector; all IDs pairwise distinct. The reader audit goes on past continuable errors (malformed csv lines, failing transforms). distinct = digest of the operation history / input; non-trivial = history in which the pool " +
 			"handed back at least one previously released pointer (or, for readers, >=2 records).",
 		Assumptions: []string{
 			"the harness owns every node it creates through the public idr API; readers own theirs (audited through RawRecord().Raw())",
